@@ -515,8 +515,16 @@ func c09GenBig(w *bufio.Writer, r *rng, n int) {
 	fmt.Fprintln(w, "dsize\nfsize\nasize\nddisc 3\nfdisc 3\nadisc 3\ndage 2\nfage 2\naage 2\ndclean 1\nfclean 1\naclean 1")
 }
 
+// c09Mix scrambles the seed (see c08Mix; duplicated because the engines carry separate build tags).
+func c09Mix(seed int64) int64 {
+	z := uint64(seed) + 0x9E3779B97F4A7C15
+	z = (z ^ (z >> 30)) * 0xBF58476D1CE4E5B9
+	z = (z ^ (z >> 27)) * 0x94D049BB133111EB
+	return int64(z ^ (z >> 31))
+}
+
 func c09Gen(w *bufio.Writer, seed int64, tier string) {
-	r := newRng(seed)
+	r := newRng(c09Mix(seed))
 	cases, nops := 180, 50
 	if tier == "thorough" {
 		cases, nops = 5000, 60
